@@ -526,7 +526,29 @@ def p_snap_grid(x0, x1, res, off, tol):
     return ok, f"snap_grid -> tx={tx!r} nx={nx} lo={float(lo)!r} hi={float(hi)!r}"
 
 
+def ref_snap_scale(s, tol):
+    """independent reference for snap_scale (0 < tol < 1/2), exact Fractions; the only float step is the reciprocal
+    the contract is stated on: nearest integer if within tol (|s| >= 1 - tol), 1/n if 1/s is within tol of n, else s"""
+    fs, t = F(s), F(tol)
+    if abs(fs) >= 1 - t:
+        n = round(fs)
+        return float(n) if abs(fs - n) < t else s
+    if abs(fs) < t:
+        return s
+    si = F(1 / s)
+    n = round(si)
+    return 1 / n if abs(si - n) < t else s
+
+
+def ref_maybe_int(x, tol):
+    """independent reference for maybe_int (0 < tol < 1/2): the nearest integer if strictly within tol, else x"""
+    n = round(F(x))
+    return float(n) if abs(F(x) - n) < F(tol) else x
+
+
 def p_snap_affine(A6, ttol, stol, tol):
+    """rotated input untouched; otherwise EACH coefficient snapped with its OWN tolerance (x and y scale: stol,
+    translations: ttol, off-diagonal terms zeroed when <= tol); idempotent"""
     from affine import Affine
     from odc.geo.math import snap_affine
     A = Affine(*A6)
@@ -540,11 +562,36 @@ def p_snap_affine(A6, ttol, stol, tol):
     if ttol > 0:
         ok = ok and abs(F(b[2]) - F(tx)) < F(ttol) and abs(F(b[5]) - F(ty)) < F(ttol)
         ok = ok and (b[2] == tx or F(b[2]).denominator == 1) and (b[5] == ty or F(b[5]).denominator == 1)
+    if 0 < ttol < 0.5 and 0 < stol < 0.5:
+        want = (ref_snap_scale(sx, stol), 0.0, ref_maybe_int(tx, ttol), 0.0, ref_snap_scale(sy, stol), ref_maybe_int(ty, ttol))
+        ok = ok and b == want
+        detail += f", expected {want} (scales within stol={stol!r}, translations within ttol={ttol!r})"
     if ok and ttol > 0 and 0 < stol < 0.5:
         B2 = snap_affine(B, ttol, stol, tol)
         ok = tuple(B2)[:6] == b
         detail += f", applied again: {tuple(B2)[:6]}"
     return ok, detail
+
+
+def rand_st_affine(rng):
+    """unrotated affine whose x scale, y scale and translations are perturbed INDEPENDENTLY, at magnitudes below
+    stol, between stol and ttol, and above ttol; (A6, ttol, stol, tol)"""
+    ttol, stol, tol = rng.choice([(1e-3, 1e-6, 1e-8), (1e-3, 1e-6, 1e-8), (2.0 ** -10, 2.0 ** -20, 2.0 ** -27), (0.01, 1e-4, 1e-10)])
+
+    def delta():
+        lo, hi = stol, ttol
+        return rng.choice([1, -1]) * rng.choice([0.0, lo / 4, lo * 0.9, lo * 1.1, (lo * hi) ** 0.5, 2.0 ** -12, 2.0 ** -15, hi * 0.4, hi * 0.9, hi * 1.1, hi * 7, 0.3])
+
+    def scale():
+        n = rng.choice([1, 1, 2, 3, 5, 10, 30, 256]) * rng.choice([1, -1])
+        v = n + delta()
+        return float(v) if rng.random() < 0.6 else float(1 / v)
+
+    def trans():
+        return float(rng.choice([0, 1, -7, 100, 4096, -123456]) + delta())
+
+    w = rng.choice([0.0, 0.0, 0.0, tol / 2, -tol / 2])
+    return (scale(), w, trans(), rng.choice([0.0, 0.0, -tol / 3]), scale(), trans()), ttol, stol, tol
 
 
 def p_bin(sz, origin, d, idx, x):
@@ -614,25 +661,56 @@ def p_from_pts(A6, pts):
 
 
 def p_poly2d(coef, pts, A6):
-    """numeric validation (tolerance 1e-6) of the lstsq oracle behind Poly2d.fit"""
+    """numeric validation (tolerance 1e-6) of the lstsq oracle behind Poly2d.fit, of evaluation, and of
+    with_input_transform(A): q(u) must equal the exact map applied to A u (A applied with numpy, not with the library)"""
     import numpy as np
     from affine import Affine
     from odc.geo.math import Poly2d
     aa = np.asarray(pts, dtype="float64")
     x, y = aa.T
     n = len(pts)
-    terms = [np.ones_like(x), x, y, x * y, x * x, y * y, x * x * y, x * y * y, x * x * y * y]
     nt = 9 if n >= 9 else 4 if n >= 4 else 3
     cf = np.asarray(coef, dtype="float64")[:nt]
-    bb = np.stack([sum(c[0] * t for c, t in zip(cf, terms)), sum(c[1] * t for c, t in zip(cf, terms))], axis=1)
+
+    def exact_map(px, py):
+        terms = [np.ones_like(px), px, py, px * py, px * px, py * py, px * px * py, px * py * py, px * px * py * py]
+        return np.stack([sum(c[0] * t for c, t in zip(cf, terms)), sum(c[1] * t for c, t in zip(cf, terms))], axis=1)
+
+    bb = exact_map(x, y)
     p = Poly2d.fit(aa, bb)
     ok = _close(p(aa), bb, 1e-6)
-    A = Affine(*A6)
-    q = p.with_input_transform(A)
-    inv = ~A
-    aa2 = np.asarray([inv * (px, py) for px, py in pts], dtype="float64")
-    ok = ok and _close(q(aa2), bb, 1e-6)
-    return ok, f"max fit error {float(np.abs(p(aa) - bb).max())!r}"
+    ok = ok and _close(np.asarray(p(x, y)).T, bb, 1e-6)               # two-argument form returns (2, N)
+    a, b, c, d, e, f = A6
+    M = np.asarray([[a, b], [d, e]], dtype="float64")
+    t = np.asarray([c, f], dtype="float64")
+    q = p.with_input_transform(Affine(*A6))
+    u = np.linalg.solve(M, (aa - t).T).T                      # points of the new input space that A maps onto the control points
+    au = u @ M.T + t                                          # A u, applied with numpy
+    want = exact_map(au[:, 0], au[:, 1])
+    got = q(u)
+    ok2 = _close(got, want, 1e-6)
+    return ok and ok2, (f"max fit error {float(np.abs(p(aa) - bb).max())!r}; with_input_transform{tuple(A6)}: "
+                        f"max |q(u) - map(A u)| = {float(np.abs(np.asarray(got) - want).max())!r}")
+
+
+def rand_input_affine(rng):
+    """input transforms for Poly2d.with_input_transform: identity, scale+translate, exactly ONE off-diagonal term
+    (pure x- or y-shear), rotations, general affines"""
+    kind = rng.choice(["id", "st", "shear_x", "shear_x", "shear_y", "shear_y", "rot", "general"])
+    sx, sy = rng.choice([1.0, 2.0, 0.5, -1.0]), rng.choice([1.0, 0.5, 3.0, -1.0])
+    tx, ty = rng.choice([0.0, -5.0, 7.0]), rng.choice([0.0, 3.0, -2.0])
+    if kind == "id":
+        return (1.0, 0.0, 0.0, 0.0, 1.0, 0.0)
+    if kind == "st":
+        return (sx, 0.0, tx, 0.0, sy, ty)
+    if kind == "shear_x":
+        return (sx, rng.choice([0.36397023426620234, 0.25, -1.0, 1e-3]), tx, 0.0, sy, ty)      # tan(20 deg) = Affine.shear(20)
+    if kind == "shear_y":
+        return (sx, 0.0, tx, rng.choice([0.36397023426620234, -0.5, 2.0, 1e-3]), sy, ty)
+    if kind == "rot":
+        ang = rng.choice([0.3, -1.1, math.pi / 2, 2.5])
+        return (math.cos(ang) * sx, -math.sin(ang) * sx, tx, math.sin(ang) * sx, math.cos(ang) * sx, ty)
+    return (sx, 0.25, tx, -0.5, sy, ty)
 
 
 def p_norm_xy(pts):
@@ -726,6 +804,8 @@ def search(out, tier, kept):
         run("snap_grid", *c)
     for c in kept["affine"]:
         run("snap_affine", *c)
+    for _ in range(400 * mult):
+        run("snap_affine", *rand_st_affine(rng))
     for c in kept["bin"]:
         run("bin", *c)
     for _ in range(100 * mult):
@@ -752,7 +832,7 @@ def search(out, tier, kept):
             span = max(max(abs(p[0] - pts[0][0]), abs(p[1] - pts[0][1])) for p in pts) or 1.0
             # keep the higher-order terms of comparable size over the layout's extent
             coef = [(cx_ / span ** d, cy_ / span ** d) for (cx_, cy_), d in zip(coef, (0, 1, 1, 2, 2, 2, 3, 3, 4))]
-            A6 = rng.choice([(1.0, 0.0, 0.0, 0.0, 1.0, 0.0), (2.0, 0.0, -5.0, 0.0, 0.5, 3.0), (1.0, 0.25, 7.0, -0.5, 1.0, -2.0)])
+            A6 = rand_input_affine(rng)
             run("poly2d", tuple(coef), pts, A6)
             if len(pts) >= 3:
                 B6 = (rng.uniform(0.5, 3) * rng.choice([1, -1]), rng.uniform(-1, 1), rng.uniform(-100, 100),
@@ -763,9 +843,7 @@ def search(out, tier, kept):
         k = math.isqrt(n - 1) + 1
         pts = [(float(i % k) * 3 + rng.uniform(-1, 1), float(i // k) * 3 + rng.uniform(-1, 1)) for i in range(n)]
         coef = [(rng.uniform(-3, 3), rng.uniform(-3, 3)) for _ in range(4)] + [(rng.uniform(-.1, .1), rng.uniform(-.1, .1)) for _ in range(5)]
-        A6 = (rng.uniform(0.5, 2), 0.0, rng.uniform(-5, 5), 0.0, rng.uniform(0.5, 2), rng.uniform(-5, 5))
-        if rng.random() < 0.5:
-            A6 = (A6[0], 0.25, A6[2], -0.5, A6[4], A6[5])
+        A6 = rand_input_affine(rng)
         run("poly2d", tuple(coef), tuple(pts), A6)
 
 
